@@ -12,6 +12,14 @@ def forUp {σ : Type} (lo hi : Int) (st : σ) (body : Int → σ → σ) : σ :=
 def forDown {σ : Type} (hi lo : Int) (st : σ) (body : Int → σ → σ) : σ :=
   (List.range (hi - lo + 1).toNat).foldl (fun st (k : Nat) => body (hi - (k : Int)) st) st
 
+/-- a counting loop that an error return can leave: `none` once an iteration has failed -/
+def forUpOpt {σ : Type} (lo hi : Int) (st : σ) (body : Int → σ → Option σ) : Option σ :=
+  forUp lo hi (some st) (fun i o => match o with | none => none | some s => body i s)
+
+/-- `a & b` and `a << b` on the non-negative integers these functions use -/
+def band (a b : Int) : Int := ((a.toNat &&& b.toNat : Nat) : Int)
+def shl (a b : Int) : Int := ((a.toNat <<< b.toNat : Nat) : Int)
+
 /-- `l[i]` (the zero value outside the slice, where Go panics) -/
 def get {α : Type} (l : List α) (i : Int) (d : α) : α := if i < 0 then d else l.getD i.toNat d
 
